@@ -839,7 +839,7 @@ func c20scripts(c c20case, each func(script [][3]int) bool) {
 
 func TestVerif_C20(t *testing.T) {
 	vrun.Main(t, "C20", func(r *vrun.Run) {
-		r.Rule = "real clusterClient over 3 fake primaries (slots of keys b,c,a). Batches of length <= L: (F1) every sequence of reads/writes over <=3 slots up to renaming of slots (duplicates included); (F2) every sequence over {read,write of one slot, slot-less ECHO} containing an ECHO, and every such sequence with one MULTI..EXEC block at every position pair; (F3) every sequence of cacheable reads over <=3 slots x ToStaticTTL {none,all,alternating} through DoMultiCache. x every script of <=2 non-ok outcomes (member, attempt 1|2) from {MOVED->n0..n2, ASK->n0..n2, TRYAGAIN, transport failure (breaks the rest of that pipeline call)}; slot-less members only fail by transport. non-trivial = at least one scripted fault was actually hit"
+		r.Rule = "real clusterClient over 3 fake primaries (slots of keys b,c,a). Batches of length <= L: (F1) every sequence of reads/writes over <=3 slots up to renaming of slots (duplicates included); (F2) every sequence over {read,write of one slot, slot-less ECHO} containing an ECHO, and every such sequence with one MULTI..EXEC block at every position pair; (F3) every sequence of cacheable reads over <=3 slots x ToStaticTTL {none,all,alternating} through DoMultiCache. x every script of <=2 non-ok outcomes (member, attempt 1|2) from {MOVED->n0..n2, ASK->n0..n2, TRYAGAIN, transport failure (breaks the rest of that pipeline call)}; slot-less members only fail by transport. L = 4 (thorough 5; thorough also runs F2 on a second node's slot and F3 with length 6). non-trivial = at least one scripted fault was actually hit"
 		if raw, ok := r.ReplayPayload(); ok {
 			var c c20case
 			if err := json.Unmarshal(raw, &c); err != nil {
@@ -858,10 +858,15 @@ func TestVerif_C20(t *testing.T) {
 		r.Bounds["attempts_scripted"] = 2
 		r.Bounds["nodes"] = 3
 		// F2 uses the slot of node 0 (which also serves batches of slot-less commands only); the thorough tier
-		// repeats F2 up to length 4 with the slot of node 1
+		// repeats F2 with the slot of node 1 and adds the DoMultiCache batches of length 6
 		batches := c20batches(maxLen, []int{0}, false)
 		if !r.Quick() {
-			batches = append(batches, c20batches(4, []int{1}, true)...)
+			batches = append(batches, c20batches(maxLen, []int{1}, true)...)
+			for _, b := range c20batches(maxLen+1, nil, false) {
+				if b.API == "cache" && len(b.Items) == maxLen+1 {
+					batches = append(batches, b)
+				}
+			}
 		}
 		r.Bounds["batches"] = len(batches)
 		env := c20newEnv()
